@@ -63,9 +63,11 @@ class LoopCtl:
         Engine.cur.assume(seq.n >= 0)
         self.h.ensure(f"loop{lid}-invariant-established", self.inv[lid](env, z3.IntVal(0), seq))
 
-    def havoc(self, lid, name, old):
+    def havoc(self, lid, name, old, k=None):
         kind = self.havoc_kinds.get(lid, {}).get(name)
         eng = Engine.cur
+        if callable(kind):
+            return kind(eng, k)
         if kind is None:
             if isinstance(old, Sym) or (isinstance(old, (int, float)) and not isinstance(old, bool)):
                 kind = "real"
@@ -73,8 +75,6 @@ class LoopCtl:
                 kind = "bool"
             else:
                 return old  # not a value the loop accumulates (e.g. the loop variable of a nested helper)
-        if callable(kind):
-            return kind(eng)
         if kind == "real":
             return eng.fresh_real(name + "!h", "Q")
         if kind == "realF":
@@ -126,7 +126,7 @@ class _Cutter(ast.NodeTransformer):
         body = "\n".join(ast.unparse(b) for b in node.body)
         orig = ast.unparse(node)
         hav = "\n".join(
-            f"    {v} = _vfctl.havoc({lid}, '{v}', locals().get('{v}'))" for v in carried) or "    pass"
+            f"    {v} = _vfctl.havoc({lid}, '{v}', locals().get('{v}'), _vfk{lid})" for v in carried) or "    pass"
         unsupported = ""
         if has_break or node.orelse:
             unsupported = f"    raise _vfUnsupported('break/else on cut loop {lid}')\n"
@@ -136,8 +136,8 @@ if not _vfctl.is_abs(_vfseq{lid}):
 {textwrap.indent(orig.replace(it, f'_vfseq{lid}', 1) if orig.startswith('for ' + tgt + ' in ' + it) else orig, '    ')}
 else:
 {unsupported}    _vfctl.enter({lid}, _vfseq{lid}, locals())
-{hav}
     _vfk{lid} = _vfctl.index({lid}, _vfseq{lid})
+{hav}
     _vfctl.assume_inv({lid}, locals(), _vfk{lid}, _vfseq{lid})
     if _vfctl.more(_vfk{lid}, _vfseq{lid}):
         {tgt} = _vfseq{lid}.elem(_vfk{lid})
